@@ -1,6 +1,115 @@
-(* C20 - placeholder while the correspondence is brought up; replaced by the theorem file. *)
+(* C20 - Only the owner or admin can move or alter what they own.
+   Property theorems only; each is closed by a lemma of C20/Proofs.v or C20/Inventory.v.
+
+   [step e s sender m] is one message [m] from [sender] run through its handler under baseapp's atomic wrapper;
+   [authorised s m sender] is the set of senders the handlers admit in state [s]: the position owner (or the
+   governance module account for TransferPositions), the lock owner (who must also be on the
+   ForceUnlockAllowedAddresses list for ForceUnlock), the denom's current admin; messages that address no object by
+   id act on the sender's own locks / namespace and are open to everybody. All statements hold for every state [s]
+   - reachable or not - so they hold after every history, in particular after ownership transfers, admin changes
+   and renouncement. [e] supplies the pool arithmetic the model does not compute; every statement is for all [e]. *)
 From Coq Require Import ZArith List Bool.
-From Osmo Require Import C20.Model C20.Inventory.
-Theorem C20_inventory_total : forallb classified Gen.C20_msgs.c20_msgs = true.
+Import ListNotations.
+From Osmo Require Import Gen.C20_msgs C20.Model C20.Proofs C20.Inventory.
+Open Scope Z_scope.
+
+(* a message from a sender outside the authorised set fails and leaves every balance and record as it was *)
+Theorem C20_unauthorised_fails_unchanged : forall e s m sender,
+  authorised s m sender = false -> exists x, step e s sender m = (s, Err x).
+Proof. exact unauthorised_fails_unchanged. Qed.
+Print Assumptions C20_unauthorised_fails_unchanged.
+
+(* equivalently: a message succeeds only when sent from the authorised set *)
+Theorem C20_accepted_was_authorised : forall e s m sender s',
+  step e s sender m = (s', Ok) -> authorised s m sender = true.
+Proof. exact accepted_was_authorised. Qed.
+Print Assumptions C20_accepted_was_authorised.
+
+(* a failing message changes nothing (the wrapper) *)
+Theorem C20_error_leaves_state : forall e s m sender s' x, step e s sender m = (s', Err x) -> s' = s.
+Proof. exact error_leaves_state. Qed.
+Print Assumptions C20_error_leaves_state.
+
+(* after the admin is renounced (authority metadata admin = ""), every admin message on the denom fails for every sender *)
+Theorem C20_renounced_admin_powerless : forall e s d m sender,
+  admin_of s d = None -> admin_msg_on m d -> exists x, step e s sender m = (s, Err x).
+Proof. exact renounced_admin_powerless. Qed.
+Print Assumptions C20_renounced_admin_powerless.
+
+(* namespace: CreateDenom adds exactly factory/{sender}/{sub} with the sender as admin, only if it did not exist ... *)
+Theorem C20_namespace : forall e s sender sub wf s',
+  step e s sender (MCreateDenom sub wf) = (s', Ok) ->
+  denoms s' = denoms s ++ [mkDenom sender sub (Some sender) None 0] /\ find_denom s (DFactory sender sub) = None.
+Proof. exact create_denom_namespace. Qed.
+Print Assumptions C20_namespace.
+(* ... so nobody creates a token in someone else's namespace *)
+Theorem C20_namespace_only_own : forall e s sender sub wf s',
+  step e s sender (MCreateDenom sub wf) = (s', Ok) ->
+  forall x, In x (denoms s') -> In x (denoms s) \/ (d_creator x = sender /\ d_admin x = Some sender).
+Proof. exact create_denom_only_own_namespace. Qed.
+Print Assumptions C20_namespace_only_own.
+
+(* mint-to / burn-from / force-transfer never move the funds of a protected module account, whoever sends them *)
+Theorem C20_module_accounts_protected : forall e s sender m s',
+  step e s sender m = (s', Ok) -> tf_bank_msg m ->
+  forall a d, In a (protected s) -> bal_of (bals s') a d = bal_of (bals s) a d.
+Proof. exact module_accounts_protected. Qed.
+Print Assumptions C20_module_accounts_protected.
+Theorem C20_mint_to_module_fails : forall e s sender d amt a,
+  In a (protected s) -> exists x, step e s sender (MMint d amt (Some a)) = (s, Err x).
+Proof. exact mint_to_module_fails. Qed.
+Print Assumptions C20_mint_to_module_fails.
+Theorem C20_burn_from_module_fails : forall e s sender d amt a,
+  In a (protected s) -> exists x, step e s sender (MBurn d amt (Some a)) = (s, Err x).
+Proof. exact burn_from_module_fails. Qed.
+Print Assumptions C20_burn_from_module_fails.
+Theorem C20_force_transfer_module_fails : forall e s sender d amt from to,
+  In from (protected s) \/ In to (protected s) -> exists x, step e s sender (MForceTransfer d amt from to) = (s, Err x).
+Proof. exact force_transfer_module_fails. Qed.
+Print Assumptions C20_force_transfer_module_fails.
+
+(* the inventory: every Msg-service method of the four modules found in /repo (Gen/C20_msgs.v, regenerated on every
+   run) is classified - modelled by a constructor of [msg] or explicitly not acting on an existing owned object -,
+   no row is stale, and every constructor models a method that exists *)
+Theorem C20_inventory_total : forallb classified c20_msgs = true.
 Proof. exact inventory_total. Qed.
 Print Assumptions C20_inventory_total.
+Theorem C20_inventory_exact :
+  forallb (fun row => known (fst row)) table = true /\ forallb has_row all_tags = true /\ (forall t, exists m, tag_of m = t).
+Proof. exact (conj inventory_no_stale_rows (conj constructors_all_used tag_of_onto)). Qed.
+Print Assumptions C20_inventory_exact.
+
+(* non-vacuity: a state with a position of account 1, a lock of account 1 (account 5 is on the force-unlock list),
+   a denom created by 1 whose admin was changed to 2, and a renounced denom; module accounts 7 (lockup) and 8.
+   The authorised sender succeeds and the state really changes; everybody else fails. *)
+Definition nv_state : state :=
+  mkState [mkPos 1 1 3 1000 0 false; mkPos 2 4 3 500 0 false] 3
+          [mkLock 1 1 None (DNative 1) 100 10 false SNone None; mkLock 2 5 None (DNative 1) 70 10 false SNone None] 2
+          [mkDenom 1 1 (Some 2) None 0; mkDenom 1 2 None None 0]
+          [(3, DFactory 1 1, 50); (7, DNative 1, 170)]
+          6 7 10 [6; 7; 8; 10] [5] 20 [DNative 1] [0; 1] 0 (DNative 9) [] [] [] [] [] [].
+Definition nv_env : env := mkEnv 777 0 [].
+
+Example C20_nonvacuous :
+  (* hypotheses of the theorems are met by concrete messages ... *)
+  authorised nv_state (MWithdrawPosition 1 400) 4 = false /\
+  authorised nv_state (MTransferPositions [1] 4) 6 = true /\
+  authorised nv_state (MForceUnlock 1 None) 1 = false /\          (* owner, but not on the allow list *)
+  authorised nv_state (MForceUnlock 2 None) 5 = true /\
+  authorised nv_state (MMint (DFactory 1 1) 5 None) 1 = false /\   (* creator and previous admin *)
+  admin_of nv_state (DFactory 1 2) = None /\
+  (* ... authorised senders are served and the state moves ... *)
+  map p_liq (positions (fst (step nv_env nv_state 1 (MWithdrawPosition 1 400)))) = [600; 500] /\
+  map p_owner (positions (fst (step nv_env nv_state 6 (MTransferPositions [1] 4)))) = [4; 4] /\
+  map l_id (locks (fst (step nv_env nv_state 5 (MForceUnlock 2 None)))) = [1] /\
+  bal_of (bals (fst (step nv_env nv_state 2 (MForceTransfer (DFactory 1 1) 20 3 4)))) 4 (DFactory 1 1) = 20 /\
+  snd (step nv_env nv_state 2 (MMint (DFactory 1 1) 5 (Some 3))) = Ok /\
+  map d_creator (denoms (fst (step nv_env nv_state 4 (MCreateDenom 1 true)))) = [1; 1; 4] /\
+  (* ... and the others are not *)
+  step nv_env nv_state 4 (MWithdrawPosition 1 400) = (nv_state, Err EAuth) /\
+  step nv_env nv_state 1 (MForceUnlock 1 None) = (nv_state, Err EAuth) /\
+  step nv_env nv_state 1 (MMint (DFactory 1 1) 5 None) = (nv_state, Err EAuth) /\
+  step nv_env nv_state 1 (MChangeAdmin (DFactory 1 2) (Some 1)) = (nv_state, Err EAuth) /\
+  step nv_env nv_state 2 (MMint (DFactory 1 1) 5 (Some 7)) = (nv_state, Err EOther) /\
+  step nv_env nv_state 2 (MBurn (DFactory 1 1) 5 (Some 8)) = (nv_state, Err EOther).
+Proof. vm_compute. repeat split; reflexivity. Qed.
